@@ -173,6 +173,33 @@ def h_string_text(ctx, cls, length, n):
             ctx.check("canonical text reads to the same value", conv.convert(c) == res)
 
 
+TOKENS_STR = ["&amp;", "&lt;", "&gt;", "&nbsp;", "&apos;", "&quot;", "&", "amp;", "lt;", "gt;", "nbsp;", "apos;", "quot;", "x", ";"]
+
+
+def h_string_tokens(ctx, cls, length, ntok):
+    """text assembled from entity-sized tokens (entities, a bare '&', entity tails, plain characters): every way escapes can
+    abut, overlap or nest - e.g. '&amp;' followed by 'quot;' must decode to '&quot;', never to '"'"""
+    conv = getattr(Types, cls)(length)
+    t = ""
+    for i in range(ntok):
+        t = t + ctx.choice(f"tok{i}", TOKENS_STR)
+    want = ref_unescape(ctx, t)
+    too_long = length is not None and len(want) > length
+    ok = True
+    res = None
+    try:
+        with warnings.catch_warnings(record=True) as w:
+            warnings.simplefilter("always")
+            res = conv.convert(t)
+    except REJECT:
+        ok = False
+    if cls == "String":
+        ctx.check("String text is accepted iff its decoded length is within the limit", ok == (not too_long))
+    if ok:
+        ctx.check("character data is decoded by the OFX entity rules (one left-to-right pass)", res == want)
+        ctx.check("decoding then re-escaping is stable", conv.convert(xml_escape(res)) == res if (cls != "String" or not too_long) else True)
+
+
 # ---------------------------------------------------------------- OneOf
 TOKENS = {"two": ("A", "BC"), "five": ("CHECKING", "SAVINGS", "MONEYMRKT", "CREDITLINE", "CD"), "yn": ("Y", "N", "YES")}
 
@@ -351,7 +378,9 @@ def h_wrongtype(ctx, kind):
     ctx.check(f"{kind}: value of the wrong Python type is rejected when written", raises(conv.unconvert, v))
 
 
-HARNESSES = dict(bool=h_bool, bool_text=h_bool_text, none=h_none, string_value=h_string_value, string_text=h_string_text,
+from harness import c09 as _c09
+
+HARNESSES = dict(dt_write=_c09.h_write, dt_read=_c09.h_read, dt_naive=_c09.h_write_naive, dt_roundtrip=_c09.h_roundtrip, bool=h_bool, bool_text=h_bool_text, none=h_none, string_value=h_string_value, string_text=h_string_text, string_tokens=h_string_tokens,
                  oneof=h_oneof, int_value=h_int_value, int_text=h_int_text, int_badtext=h_int_badtext, dec_value=h_dec_value,
                  dec_text=h_dec_text, dec_badtext=h_dec_badtext, listelement=h_listelement, wrongtype=h_wrongtype)
 
@@ -391,6 +420,9 @@ def instances(tier, seed):
     for cls, L in (("String", None), ("String", 3), ("NagString", 2)) if not full else (("String", None), ("String", 1), ("String", 3), ("NagString", 2)):
         for n in range(1, (6 if not full else 7) + 1):
             mk(f"string_text[{cls},{L},{n}]", "string_text", dict(cls=cls, length=L, n=n), wall_s=600 if not full else 1800, max_paths=200000)
+    for cls, L in (("String", None), ("String", 6), ("NagString", 3)):
+        for ntok in ((1, 2) if not full else (1, 2, 3)):
+            mk(f"string_tokens[{cls},{L},{ntok}]", "string_tokens", dict(cls=cls, length=L, ntok=ntok), max_paths=20000)
     for toks in TOKENS:
         mx = max(len(t) for t in TOKENS[toks])
         for n in sorted(set([1, 2, mx, mx + 1])) if full else sorted(set([1, 2, min(mx, 3)])):
@@ -414,4 +446,11 @@ def instances(tier, seed):
         mk(f"dec_badtext[{n}]", "dec_badtext", dict(n=n))
     for n in (1, 2, 3):
         mk(f"listelement[{n}]", "listelement", dict(n=n))
+    # date-time and time: the value spaces of C09 (writer over all instants x offsets; reader on the shapes the writer emits)
+    for kind in ("dt", "time"):
+        for named in ((None, 2) if not full else (None, 0, 1, 3)):
+            mk(f"dt_write[{kind},name={named}]", "dt_write", dict(kind=kind, named=named), timeout_ms=30000)
+        mk(f"dt_naive[{kind}]", "dt_naive", dict(kind=kind))
+        for off in (["+", 1, False, None], ["-", 2, True, None], ["-", 1, True, 2], ["+", 2, True, 0]):
+            mk(f"dt_read[{kind},{off}]", "dt_read", dict(kind=kind, has_time=True, has_ms=True, off=off), timeout_ms=20000)
     return out
